@@ -133,6 +133,10 @@ extern int mpt_axis_set(MPT_STRUCT(axis) *ax, const char *name, MPT_INTERFACE(co
 		}
 		if ((type = mpt_axis_pointer_typeid()) > 0
 		 && (len = src->_vptr->convert(src, type, &from)) >= 0) {
+			/* assignment to itself */
+			if (len && from == ax) {
+				return 0;
+			}
 			mpt_axis_fini(ax);
 			mpt_axis_init(ax, len ? from : 0);
 			return 0;
@@ -153,6 +157,10 @@ extern int mpt_axis_set(MPT_STRUCT(axis) *ax, const char *name, MPT_INTERFACE(co
 		}
 		if ((type = mpt_axis_pointer_typeid()) > 0
 		 && (len = src->_vptr->convert(src, type, &from)) >= 0) {
+			/* assignment to itself */
+			if (len && from == ax) {
+				return 0;
+			}
 			mpt_axis_fini(ax);
 			mpt_axis_init(ax, len ? from : 0);
 			return 0;
